@@ -56,6 +56,12 @@ MEMPOOL_HARNESSES = [
      'obligations': ['REAL MemPool::removeAll with a VTB that is connected once or twice (resubmission of a connected payload): afterwards neither the per-type map nor the VBK relations hold it, and generatePopData never returns it again'],
      'rungs': {'quick': [{'bound': 'one VTB connected 1..2 times on VBK block 3 (pool state constructed directly), removeAll, generatePopData', 'timeout': 200}], 'thorough': [{'bound': 'as quick', 'timeout': 400}]}},
 ]
+VBKADD_HARNESSES = [
+    {'name': 'h_vbkadd', 'src': 'real/h_vbkadd.cpp', 'entry': 'h_vbkadd', 'repo_srcs': srcsets_real.REAL, 'covers': [1, 2, 3, 4, 5, 6], 'jobs': 8,
+     'obligations': ['REAL VbkBlockTree::addPayloads with two VTBs in one call: it succeeds iff every VTB is valid in the given order; when it fails the VBK and BTC views (blocks, FAILED/ACTIVE bits, reference counts, payload ids, endorsements, best chains, applied count) are exactly as before the call - every VTB applied earlier in the same call is rolled back and, for a containing block off the active VBK chain, the VBK tip is restored',
+                     'a successful call can be taken back with removePayloads: the BTC tree is empty again'],
+     'rungs': {'quick': [{'bound': 'containing block 3, 4 (active VBK chain) or 5 (fork); second VTB valid / duplicate / endorsing a block of another fork / block of proof with unknown parent; both orders', 'timeout': 250}], 'thorough': [{'bound': 'as quick', 'timeout': 500}]}},
+]
 CTX_HARNESSES = [
     {'name': 'h_realrefs', 'src': 'real/h_realrefs.cpp', 'entry': 'h_realrefs', 'repo_srcs': srcsets_real.REAL, 'covers': [1, 2, 3, 4], 'jobs': 16,
      'obligations': ['REAL VbkBlockTree BTC-context rule with one BTC block referenced at two VBK heights recorded in either order: a VTB whose BTC context connects to that block is valid iff SOME reference height is at or below its containing height (set semantics, independent of recording order and of a detour through another fork); reference heights of the new BTC block are exactly the containing height'],
